@@ -38,6 +38,10 @@ CHECKS = {
  "C11": dict(
   text="Whole-system deterministic simulation with 1..4 simultaneous hostile scripted control connections (valid play/record conversations, interleaved frames in any state, HTTP-tunnel and WebSocket handshakes, base64 blocks, garbage; 16 grammar/byte-level mutation kinds; every chunking; ending in close, RST or silence; plain or after a TLS handshake) next to a well-behaved real client: no panic or deadlock, every hostile connection answered or closed within the configured timeouts (simulated time), the well-behaved client's stream stays in order and gap-free, and after all timeouts the server registries, stream reader slots, server-node sockets and library goroutine count are back at the baseline taken before the attack; a fresh client is then served; OnConnOpen/OnConnClose balanced.",
   note=WHOLE_NOTE, tech="deterministic simulation with fault injection: hostile scripted peers, resource census vs baseline", ref="3.6"),
+ "C12": dict(
+  text="Whole-system deterministic simulation of a real Client (play or record; protocol forced or automatic; credentials; back channels; AnyPortEnable; busy local UDP ports) against a scripted server derived from a correct one: per request the response is mutated (16 grammar/byte kinds, field-level SDP / Transport / Session / RTP-Info mutations), dropped, duplicated, delayed around and beyond ReadTimeout, preceded by injected frames or server requests, replaced by odd status codes, wrong/missing CSeq or redirects (incl. endless chains), or the connection is closed / reset / left silent; every API call must return within a multiple of the configured timeouts in simulated time, nothing may panic, Close and Wait return, and afterwards the client node holds no socket and no client goroutine remains.",
+  note=WHOLE_NOTE + " The driver respects documented API preconditions (Record only after a successful Setup, writes only while recording).",
+  tech="deterministic simulation with fault injection: hostile scripted server, simulated-time latency + census oracle", ref="3.7"),
  "C13": dict(
   text="Whole-system deterministic simulation with Server.Close, ServerStream.Close and Client.Close (from another goroutine) landing at seeded instants between any two protocol steps - idle, mid-handshake, playing, recording, paused, with a writer running, with peers that stopped reading (bounded window) or vanished - and seeded holds at ~40 yield sites on the shutdown paths; oracles: Close latency in simulated time, socket census of the closed object's node, goroutines attributed to the closed object (creator chains) and a complete end-of-run census, open/close notification balance and no packet/request callback after OnSessionClose (global sequence numbers).",
   note=WHOLE_NOTE, tech="deterministic simulation with fault injection: close-point and shutdown-interleaving search, census + callback-history oracle", ref="3.8"),
